@@ -530,7 +530,11 @@ def oracle_arnoldi(ctx, case, r):
             known.append('second run() of the same Arnoldi object raised ' + rr['error'])
         else:
             E2 = G.dec(rr['Es'])[:k] + s
-            if rr['N'] != N or len(E2) != len(E_run) or np.max(np.abs(E2 - E_run), initial=0.0) > 1e-8 * scale:
+            # (the same Ritz values; their order among equal keys - e.g. which='SI' on a Hermitian operator - is decided by rounding noise)
+            same = rr['N'] == N and len(E2) == len(E_run) and all(np.min(np.abs(E2 - e)) <= 1e-8 * scale for e in E_run) and \
+                all(np.min(np.abs(E_run - e)) <= 1e-8 * scale for e in E2) and \
+                all(abs(wkey(which, a) - wkey(which, b)) <= 1e-8 * scale for a, b in zip(E2, E_run))
+            if N <= dK and not same:
                 known.append('second run() of the same Arnoldi object returns %s (N=%d), the first %s (N=%d)' % (list(E2), rr['N'], list(E_run), N))
     return probs, {'m': m, 'N': N, 'ritz_margin': info_margin, 'known': known}
 
